@@ -34,6 +34,9 @@ type BFSOptions struct {
 	InitPath []int
 }
 
+// bfsJournalPath is the operation path of the transition being executed (for the crash journal).
+var bfsJournalPath []int
+
 type bfsNode struct {
 	path []uint16
 }
@@ -42,6 +45,7 @@ type bfsNode struct {
 // (inside Apply) on every transition.
 func BFS(res *Result, o BFSOptions, newSys func() Sys) {
 	res.Jobs++
+	journalJob = o.Job
 	if o.SampleMax == 0 {
 		o.SampleMax = 6
 	}
@@ -156,6 +160,7 @@ func pathInts(p []uint16, op int) []int {
 // step builds a fresh system, replays path, applies op.
 func step(newSys func() Sys, path []uint16, op int) (canon string, enabled bool, c *Ctx) {
 	var s Sys
+	bfsJournalPath = pathInts(path, op)
 	c = runOne(func(c *Ctx) {
 		s = newSys()
 		for _, p := range path {
